@@ -518,6 +518,8 @@ func (c *Case) runConcurrent(h handler.Handler4, m *model) *core.Violation {
 		all   []obs
 		pviol *core.Violation
 		start = make(chan struct{})
+		abort = make(chan struct{})
+		once  sync.Once
 	)
 	for g := range c.Conc {
 		wg.Add(1)
@@ -530,6 +532,7 @@ func (c *Case) runConcurrent(h handler.Handler4, m *model) *core.Violation {
 						pviol = core.Violate("C02/panic", "range plugin panicked in concurrent phase: %v", r)
 					}
 					mu.Unlock()
+					once.Do(func() { close(abort) })
 				}
 			}()
 			<-start
@@ -545,9 +548,15 @@ func (c *Case) runConcurrent(h handler.Handler4, m *model) *core.Violation {
 		}(g)
 	}
 	close(start)
-	wg.Wait()
-	if pviol != nil {
-		return pviol
+	finished := core.WaitTimeout(&wg, abort, 60*time.Second)
+	mu.Lock()
+	pv := pviol
+	mu.Unlock()
+	if pv != nil {
+		return pv
+	}
+	if !finished {
+		return core.Violate("C02/wedged", "concurrent phase: handler calls did not return within 60 s")
 	}
 	knownBefore := map[int]bool{}
 	for cl := range m.bound {
